@@ -23,6 +23,7 @@ import Driver.NodeSync
 import Driver.ConsensusStore
 import Driver.Downloader
 import Driver.Frame
+import Driver.LedgerNode
 /-
 One line per handler object. The first handler that understands a line answers it.
 -/
@@ -62,7 +63,8 @@ def registry : List Obj := [
   mkObj ({} : CsDbSt) csDbStep,
   mkObj ([] : DlBuf) dlStep,
   pureObj pureFrame,
-  mkObj ({} : PmSt) pmStep
+  mkObj ({} : PmSt) pmStep,
+  ledgerNodeObj
 ]
 
 end ZV.Driver
